@@ -33,6 +33,8 @@ STMTS = [
     ("    for k in 0 to 3 loop\n      %V(k) <= v(k);\n    end loop;\n", ['v']),
     ("    %V <= (0 => a, 1 => b, others => '0');\n", ['a', 'b']),
     ("    %T <= fn(v(i)) and a;\n", ['v', 'i', 'a']),
+    ("    if a = '1' then\n      %T <= b;\n    elsif c = '1' then\n      %T <= a;\n    else\n      %T <= v(0);\n    end if;\n", ['a', 'b', 'c', 'v']),
+    ("    %T <= v(3) when i = 0 else c;\n", ['v', 'i', 'c']),
 ]
 SECOND = [None, ("    %T <= b;\n", ['b']), ("    %T <= fn(a);\n", ['a'])]
 
